@@ -664,14 +664,50 @@ func (P *Prog) checkSelection(r *Result) {
 		r.sawFunc(fname(fn))
 		recv := ssa.Value(fn.Params[0])
 		arg := ssa.Value(fn.Params[1])
-		fromArg := func(v ssa.Value) bool {
+		var fromArgD func(v ssa.Value, depth int) bool
+		fromArgD = func(v ssa.Value, depth int) bool {
 			for _, rt := range P.rootsOf(v) {
-				if rt.kind == rkParam && rt.v == arg {
+				if rt.kind != rkParam {
+					continue
+				}
+				if rt.v == arg {
+					return true
+				}
+				// a parameter of a helper whose frame has been left (an element the helper put into the slice it
+				// returned): named by the arguments when the actual is, at every call site of the helper
+				prm, ok := rt.v.(*ssa.Parameter)
+				if !ok || prm.Parent() == fn || depth >= 3 {
+					continue
+				}
+				sites, closed := P.closedCallSites(prm.Parent())
+				if !closed || len(sites) == 0 {
+					continue
+				}
+				idx := -1
+				for i, q := range prm.Parent().Params {
+					if q == prm {
+						idx = i
+					}
+				}
+				all, n := true, 0
+				for _, site := range sites {
+					if site.Parent() != fn {
+						if _, helperClosed := P.closedCallSites(site.Parent()); !helperClosed {
+							continue // a call from another entry point does not feed this method
+						}
+					}
+					n++
+					if idx < 0 || idx >= len(site.Common().Args) || !fromArgD(site.Common().Args[idx], depth+1) {
+						all = false
+					}
+				}
+				if all && n > 0 {
 					return true
 				}
 			}
 			return false
 		}
+		fromArg := func(v ssa.Value) bool { return fromArgD(v, 0) }
 		fromRecvSchema := func(v ssa.Value) bool {
 			for _, rt := range P.rootsOf(v) {
 				if rt.kind == rkParam && rt.v == recv {
@@ -684,12 +720,34 @@ func (P *Prog) checkSelection(r *Result) {
 			}
 			return false
 		}
+		// keyOK: the key is named by the arguments (and, for a map[string]bool argument, its value was tested).
+		// A key read out of a slice (`for _, k := range selectedKeys(vals)`) stands for every element the slice
+		// was built from: each append site is judged where it is.
+		keyOK := func(key ssa.Value, at ssa.Instruction) (named, tested bool) {
+			named, tested = true, true
+			srcs, isElem := sliceElemSources(key)
+			if !isElem {
+				return fromArg(key), P.boolMapGuardOK(at.Parent(), at.Block(), key)
+			}
+			if len(srcs) == 0 {
+				return false, true
+			}
+			for _, e := range srcs {
+				if !fromArg(e.val) {
+					named = false
+				}
+				if !P.boolMapGuardOK(e.at.Parent(), e.at.Block(), e.val) {
+					tested = false
+				}
+			}
+			return
+		}
 		var bad []string
 		nKeyOps := 0
 		// decision paths of the method with its helpers entered (cloneWithOwnFields ...): events are
 		// the operations on a field map, each classified under the substitution of its call chain
 		keyOps := map[ssa.Instruction]bool{}
-		spec := &pathSpec{name: "selection", inlineAll: true}
+		spec := &pathSpec{name: "selection", inlineAll: true, symbolicLoopPhis: true}
 		spec.cond = func(iff *ssa.If) (string, string, string) { return "", "", "" }
 		spec.keep = func(f *ssa.Function) bool { return !strings.HasPrefix(funcPkgPath(f), "github.com/Oudwins/zog") }
 		spec.events = func(in ssa.Instruction) []pathItem {
@@ -700,14 +758,15 @@ func (P *Prog) checkSelection(r *Result) {
 					return nil
 				}
 				var probs []string
-				if !fromArg(x.Key) {
+				named, tested := keyOK(x.Key, in)
+				if !named {
 					probs = append(probs, "a key not named by the arguments is written at "+P.ipos(in))
 				}
 				lk, ok := cv(x.Value).(*ssa.Lookup)
 				if !ok || !fromRecvSchema(lk.X) || cv(lk.Index) != cv(x.Key) {
 					probs = append(probs, "the value stored for a picked key is not the receiver's schema for that same key ("+P.ipos(in)+")")
 				}
-				if !P.boolMapGuardOK(in.Parent(), in.Block(), x.Key) {
+				if !tested {
 					probs = append(probs, "a key of a map[string]bool argument is used without testing its boolean value ("+P.ipos(in)+")")
 				}
 				return []pathItem{{kind: "PUT", val: strings.Join(probs, "; "), in: in}}
@@ -717,10 +776,11 @@ func (P *Prog) checkSelection(r *Result) {
 				}
 				if ci.builtin == "delete" && isSchemaMap(ci.instr.Common().Args[0].Type()) {
 					var probs []string
-					if !fromArg(ci.instr.Common().Args[1]) {
+					named, tested := keyOK(ci.instr.Common().Args[1], in)
+					if !named {
 						probs = append(probs, "a key not named by the arguments is deleted at "+P.ipos(in))
 					}
-					if !P.boolMapGuardOK(in.Parent(), in.Block(), ci.instr.Common().Args[1]) {
+					if !tested {
 						probs = append(probs, "a key of a map[string]bool argument is used without testing its boolean value ("+P.ipos(in)+")")
 					}
 					return []pathItem{{kind: "DELETE", val: strings.Join(probs, "; "), in: in}}
@@ -806,6 +866,107 @@ func (P *Prog) checkSelection(r *Result) {
 		}
 	}
 	r.floor("C16/selection", 3)
+}
+
+// sliceElemSources: for a value read out of a slice (s[i]), the values the
+// slice's elements can be, each with the instruction that put it there:
+// through phis, append(acc, x...) and one-element varargs arrays, under the
+// substitution in force (a helper's result is bound to what it returns).
+// isElem=false when v is not an element read; an element source that cannot be
+// enumerated is reported as the slice value itself.
+type elemSource struct {
+	val ssa.Value
+	at  ssa.Instruction
+}
+
+func sliceElemSources(v ssa.Value) (out []elemSource, isElem bool) {
+	ld, ok := cv(v).(*ssa.UnOp)
+	if !ok || ld.Op != token.MUL {
+		return nil, false
+	}
+	ia, ok := ld.X.(*ssa.IndexAddr)
+	if !ok {
+		return nil, false
+	}
+	if _, isSlice := ia.X.Type().Underlying().(*types.Slice); !isSlice {
+		return nil, false
+	}
+	seen := map[ssa.Value]bool{}
+	var walk func(s ssa.Value, depth int)
+	walk = func(s ssa.Value, depth int) {
+		if depth > 20 {
+			out = append(out, elemSource{s, ld})
+			return
+		}
+		// phis are followed through all their edges: the elements may come from any iteration
+		if ph, isPhi := s.(*ssa.Phi); isPhi {
+			if seen[ph] {
+				return
+			}
+			seen[ph] = true
+			for _, e := range ph.Edges {
+				walk(e, depth+1)
+			}
+			return
+		}
+		s2 := cv(s)
+		if ph, isPhi := s2.(*ssa.Phi); isPhi && s2 != s {
+			walk(ph, depth+1)
+			return
+		}
+		if seen[s2] {
+			return
+		}
+		seen[s2] = true
+		switch x := s2.(type) {
+		case *ssa.Const:
+			if x.Value == nil {
+				return
+			}
+		case *ssa.MakeSlice:
+			// zero-valued elements when the length is not 0
+			if c, ok := x.Len.(*ssa.Const); ok && c.Value != nil && c.Value.ExactString() == "0" {
+				return
+			}
+		case *ssa.Call:
+			if ci := callOf(x); ci.builtin == "append" {
+				for _, a := range x.Call.Args {
+					walk(a, depth+1)
+				}
+				return
+			}
+		case *ssa.Slice:
+			if al, ok := x.X.(*ssa.Alloc); ok {
+				if _, isArr := al.Type().Underlying().(*types.Pointer).Elem().Underlying().(*types.Array); isArr {
+					all := true
+					for _, ref := range *al.Referrers() {
+						switch y := ref.(type) {
+						case *ssa.IndexAddr:
+							for _, r2 := range *y.Referrers() {
+								if st, ok := r2.(*ssa.Store); ok && st.Addr == ssa.Value(y) {
+									out = append(out, elemSource{st.Val, st})
+								} else {
+									all = false
+								}
+							}
+						case *ssa.Slice, *ssa.DebugRef:
+						default:
+							all = false
+						}
+					}
+					if all {
+						return
+					}
+				}
+			} else {
+				walk(x.X, depth+1)
+				return
+			}
+		}
+		out = append(out, elemSource{s2, ld})
+	}
+	walk(ia.X, 0)
+	return out, true
 }
 
 // boolMapGuardOK: if key comes from ranging over a map[string]bool argument,
